@@ -94,7 +94,10 @@ def run(tier, seed):
         g = bmm.shift_grid(bmm.G4 if cfg['tol'] == 0 else bmm.G5, cfg['t0'], cfg['t1'])
         ops = bmm.grid_ops(g, point_eval=(cfg['wrapper'] != 'interval' or cfg['t0'] != 0. or cfg['cache_size'] == 2))
         units += ex.bfs_units(cfg, entropy, ops, 2, **common)
-    for cfg in core_configs():
+    cores = core_configs()
+    if tier == 'thorough':
+        cores = cores[:3] + cores[-3:]  # depth 3 over the 55-letter alphabet: 170 000 histories per configuration
+    for cfg in cores:
         if tier == 'quick':
             ops = ops_small if cfg['tol'] == 0 else bmm.grid_ops(bmm.G5)
             units += ex.bfs_units(cfg, entropy, ops, 3, split=True, **common)
@@ -119,8 +122,10 @@ def run(tier, seed):
     for cfg in dev_cfgs:
         for N in Ns:
             D = 2 if (tier == 'thorough' or N == 8) else 1
-            if tier == 'thorough' and N >= 400 and cfg not in dev_cfgs[:4]:
-                D = 1  # 2 deviations at N=400 (2701 placements x ~2500 queries) on four configurations only
+            if tier == 'thorough' and N >= 400 and cfg not in dev_cfgs[:2]:
+                D = 1  # 2 deviations at N=400 (2701 placements x ~2500 queries) on two configurations only
+            if tier == 'thorough' and N >= 130 and (cfg['wrapper'] == 'tree' or cfg['cache_size'] in (0, 1)):
+                D = 1 if N == 130 else 0  # slow objects (dyadic tree to 1e-4, no cache): fewer deviations
             if cfg['cache_size'] == 0 and N > 8:
                 D = 0 if tier == 'quick' else 1  # every query recomputes from the root: ~5 s per execution
             if cfg['wrapper'] == 'tree' and N > 8 and tier == 'quick':
